@@ -173,7 +173,21 @@ impl Scenario for C06 {
                 let src = lines[i].trim_end().to_string();
                 // half of the runs are uniform junk (rejected by every parser, so the run is really uninterrupted)
                 let junk = rng.chance(1, 2);
-                let bad: Vec<String> = (0..n).map(|k| if junk { format!("?,?{k},?") } else { corrupt_record(&mut rng, &src).unwrap_or_else(|| format!("{src},x")) }).collect();
+                // in [HitObjects] a third of the runs are maximum-cost rejected sliders (9000 repeats; everything parses except the
+                // last path segment, which is converted last): whatever a parser charges to a budget or counter before the line is known to be good
+                let costly = sec == "HitObjects" && rng.chance(1, 6);
+                let n = if costly { n.min(129) } else { n };
+                let bad: Vec<String> = (0..n)
+                    .map(|k| {
+                        if costly {
+                            format!("{},{},{},2,0,B|{}:{}|{}:{}|L|x:y,9000,100", k % 512, k % 384, 1000 + k, k % 300, k % 200, k % 100, k % 50)
+                        } else if junk {
+                            format!("?,?{k},?")
+                        } else {
+                            corrupt_record(&mut rng, &src).unwrap_or_else(|| format!("{src},x"))
+                        }
+                    })
+                    .collect();
                 lines.splice(i..i, bad);
                 p.faults.push(format!("L1-run-of-{n}-corrupted-{sec}-records"));
             }
@@ -306,6 +320,42 @@ where
                 sig,
                 format!("decoder {name}: line {li} ({sec}) {l:?} was rejected by its parser, yet removing it changes the result.\n with   : …{}…\n without: …{}…", ctx(&full), ctx(&wo)),
             ));
+        }
+    }
+    // Consequence by induction: removing the first half of the rejected lines (if removing one rejected line changed
+    // whether another is rejected, that single removal would already have changed the result), then the first half of
+    // what the shortened file still rejects, and so on, never changes the result. This is what exposes budgets,
+    // counters and thresholds that no single line crosses — including ones that make later *valid* lines fail.
+    if rejected.len() >= 2 {
+        let mut cur: String = text.to_string();
+        for _step in 0..9 {
+            let pr = Probe::<D>::decode(cur.as_bytes()).map_err(|e| Violation::new("C06/decode-error", "err", format!("decode failed without reader faults: {e}")))?;
+            if fp(&pr.inner) != base {
+                return Err(Violation::new(
+                    "C06/rejected-line-had-effect",
+                    "collective",
+                    format!("decoder {name}: after removing only lines that their parser had rejected (in halves, re-probing each time) the result differs from the original — rejected lines accumulate an effect (a budget, counter or threshold fed by lines that were reported as errors)"),
+                ));
+            }
+            let cl: Vec<&str> = cur.split('\n').collect();
+            let mut from = 0usize;
+            let mut rej_lines: Vec<usize> = Vec::new();
+            for (_, l, bad) in &pr.log {
+                if let Some(i) = (from..cl.len()).find(|&i| cl[i].trim_end() == l.as_str()) {
+                    from = i + 1;
+                    if *bad {
+                        rej_lines.push(i);
+                    }
+                }
+            }
+            if rej_lines.is_empty() {
+                break;
+            }
+            st.inc("steps.ops_applied");
+            st.inc("probe.rejected-lines-removed-in-halves");
+            let take = rej_lines.len().div_ceil(2);
+            let drop: std::collections::BTreeSet<usize> = rej_lines.into_iter().take(take).collect();
+            cur = cl.iter().enumerate().filter(|(i, _)| !drop.contains(i)).map(|(_, l)| *l).collect::<Vec<_>>().join("\n");
         }
     }
     Ok(())
